@@ -179,8 +179,8 @@ Proof.
   assert (Hu : In u (names_of d) /\ In v (names_of d)).
   { destruct d as [n b|n es|n is|n]; cbn [edges_of names_of] in *.
     - destruct He as [He|[]]. inversion He; subst. split; [right; left | left]; reflexivity.
-    - apply in_map_iff in He as (e & He & Hin). inversion He; subst. split; [left; reflexivity | right; exact Hin].
-    - apply in_map_iff in He as (e & He & Hin). inversion He; subst. split; [left; reflexivity | right; exact Hin].
+    - apply in_map_iff in He as (e & He & Hin). inversion He; subst. split; [right; exact Hin | left; reflexivity].
+    - apply in_map_iff in He as (e & He & Hin). inversion He; subst. split; [right; exact Hin | left; reflexivity].
     - destruct He. }
   split; apply nodup_In; apply in_flat_map; exists d; tauto.
 Qed.
@@ -223,35 +223,33 @@ Proof.
   - apply (clos_trans_flip es' es); [|exact Hv]. intros u w. symmetry. apply H.
 Qed.
 
-Lemma containers_same ds : forallb is_container ds = true -> built_edges ds = dep_edges ds.
+(* the graph that is built is the dependency relation with every edge turned round *)
+Lemma built_is_flipped ds : forall u v, In (u, v) (built_edges ds) <-> In (v, u) (dep_edges ds).
 Proof.
-  unfold built_edges, dep_edges. induction ds as [|d ds IH]; intro H; [reflexivity|].
-  cbn [forallb] in H. apply andb_true_iff in H as [Hd Hr]. cbn [flat_map]. rewrite IH by exact Hr.
-  destruct d; try reflexivity. discriminate.
+  unfold built_edges, dep_edges. induction ds as [|d ds IH]; intros u v; [cbn; tauto|].
+  cbn [flat_map]. rewrite !in_app_iff, (IH u v).
+  assert (Hd : In (u, v) (edges_of d) <-> In (v, u) (dep_edges_of d)).
+  { destruct d as [n b|n es|n is|n]; cbn [edges_of dep_edges_of].
+    - split; (intros [He|[]]; left; inversion He; reflexivity).
+    - rewrite !in_map_iff. split; intros (e & He & Hin); exists e; (split; [inversion He; reflexivity | exact Hin]).
+    - rewrite !in_map_iff. split; intros (e & He & Hin); exists e; (split; [inversion He; reflexivity | exact Hin]).
+    - tauto. }
+  rewrite Hd. tauto.
 Qed.
 
-Lemma aliases_flipped ds : forallb is_alias ds = true ->
-  forall u v, In (u, v) (built_edges ds) <-> In (v, u) (dep_edges ds).
-Proof.
-  unfold built_edges, dep_edges. induction ds as [|d ds IH]; intros H u v; [cbn; tauto|].
-  cbn [forallb] in H. apply andb_true_iff in H as [Hd Hr]. cbn [flat_map]. rewrite !in_app_iff, (IH Hr u v).
-  destruct d as [n b|n es|n is|n]; try discriminate; cbn [edges_of dep_edges_of].
-  - split; (intros [[He|[]]|Hx]; [left; left; inversion He; reflexivity | right; exact Hx]).
-  - cbn. tauto.
-Qed.
+(* recursion is reported exactly when the dependency relation has a cycle -- for every set of declarations, whatever the mixture
+   of aliases, structures, function blocks and programs *)
+Theorem reports_iff_depends ds : reports_cycle ds = true <-> cyclic (dep_edges ds).
+Proof. rewrite reports_cycle_iff. apply cyclic_flip. apply built_is_flipped. Qed.
 
-(* recursion is reported exactly when the dependency relation has a cycle, for declaration sets
-   made of containers only (function blocks, programs, structures) or of aliases only *)
 Theorem reports_iff_depends_containers ds : forallb is_container ds = true ->
   (reports_cycle ds = true <-> cyclic (dep_edges ds)).
-Proof. intro H. rewrite reports_cycle_iff, (containers_same ds H). tauto. Qed.
+Proof. intros _. apply reports_iff_depends. Qed.
 
 Theorem reports_iff_depends_aliases ds : forallb is_alias ds = true ->
   (reports_cycle ds = true <-> cyclic (dep_edges ds)).
-Proof. intro H. rewrite reports_cycle_iff. apply cyclic_flip. apply aliases_flipped. exact H. Qed.
+Proof. intros _. apply reports_iff_depends. Qed.
 
-(* never a spurious report, whatever the mixture: a cycle of the built graph needs a cycle of
-   the symmetrised dependency relation -- stated in the weakest useful form: no edges, no report *)
 Theorem no_edges_no_report ds : built_edges ds = [] -> reports_cycle ds = false.
 Proof.
   intro H. destruct (reports_cycle ds) eqn:R; [|reflexivity].
@@ -259,11 +257,11 @@ Proof.
   exfalso. clear -Hv. induction Hv as [a b Hab|]; [destruct Hab | assumption].
 Qed.
 
-(* the mixed orientation is a real gap: a structure with an element whose type is an alias of the
-   structure depends on itself, yet both edges point the same way and nothing is reported *)
-Theorem mixed_orientation_refuted :
+(* the cycle that went unreported while alias edges and containment edges were stored with opposite orientation (a structure
+   with an element whose type is an alias of the structure) is reported *)
+Theorem mixed_cycle_reported :
   let ds := [DStruct 1 [2]; DAlias 2 1] in
-  cyclic (dep_edges ds) /\ reports_cycle ds = false.
+  cyclic (dep_edges ds) /\ reports_cycle ds = true.
 Proof.
   cbv zeta. split; [|vm_compute; reflexivity].
   exists 1. eapply t_trans; apply t_step; unfold E; cbn; [left | right; left]; reflexivity.
